@@ -167,6 +167,17 @@ class Ctx:
 
     def decide(self, sb):
         z = sb.z3()
+        if self.policy is not None and not self.nodecide:
+            forced = self.policy(self, sb)
+            if forced is not None:       # a stated precondition of the contract decides this branch (no fork, no solver call)
+                c = z if forced else z3.Not(z)
+                self.solver.add(c)
+                self.pc.append(c)
+                self.pc_desc.append(("assumed: " if forced else "assumed: not ") + sb.describe()[:200])
+                self.pc_id = hash((self.pc_id, sb.key(), forced))
+                self.model = None
+                self.stats["policy_decisions"] = self.stats.get("policy_decisions", 0) + 1
+                return forced
         st = self.status(z, sb.key())
         if st == "T":
             self.stats["decided"] += 1
@@ -176,17 +187,6 @@ class Ctx:
             return False
         if self.nodecide:
             raise SpecUndecided(sb.describe())
-        if self.policy is not None:
-            forced = self.policy(self, sb)
-            if forced is not None:       # a stated precondition of the contract decides this branch (no fork)
-                c = z if forced else z3.Not(z)
-                self.solver.add(c)
-                self.pc.append(c)
-                self.pc_desc.append(("assumed: " if forced else "assumed: not ") + sb.describe()[:200])
-                self.pc_id = hash((self.pc_id, sb.key(), forced))
-                self.model = None
-                self.stats["policy_decisions"] = self.stats.get("policy_decisions", 0) + 1
-                return forced
         idx = len(self.path)
         if idx < len(self.prefix):
             val = self.prefix[idx]
